@@ -271,3 +271,48 @@ func (e *Engine) CoverAt(st *St, msg string) {
 
 // Kill ends the path.
 func (e *Engine) Kill(st *St) { st.pc = e.S.False }
+
+// ---- table injection (for package state the engine cannot compute itself) ----------------
+
+// NamedType returns the named type of a package.
+func (e *Engine) NamedType(pkgPath, name string) types.Type {
+	for _, p := range e.Prog.AllPackages() {
+		if p.Pkg.Path() == pkgPath {
+			if t := p.Type(name); t != nil {
+				return t.Type()
+			}
+		}
+	}
+	return nil
+}
+
+// SetGlobal overwrites a package-level variable in the base heap.
+func (e *Engine) SetGlobal(pkgPath, name string, v Value) {
+	for _, p := range e.Prog.AllPackages() {
+		if p.Pkg.Path() == pkgPath {
+			if g, ok := p.Members[name].(*ssa.Global); ok {
+				e.base[e.globalObj(g)] = v
+				return
+			}
+		}
+	}
+	e.unsupported("no global " + pkgPath + "." + name)
+}
+
+func (e *Engine) IntV(v int64, w int) Value { return e.S.ConstInt(v, w) }
+func (e *Engine) BoolV(b bool) Value        { return e.S.Bool(b) }
+func (e *Engine) NilIface() Value           { return &IfaceV{Alts: []IfaceAlt{{G: e.S.True}}} }
+func (e *Engine) IfaceOf(t types.Type, v Value) Value {
+	return &IfaceV{Alts: []IfaceAlt{{G: e.S.True, T: t, V: v}}}
+}
+func StructOf(f ...Value) Value { return &StructV{F: f} }
+func ArrayOf(el []Value) Value  { return &ArrayV{E: el} }
+
+// EnsureInit runs a package's initialiser now (subject to the init policy).
+func (e *Engine) EnsureInit(pkgPath string) {
+	for _, p := range e.Prog.AllPackages() {
+		if p.Pkg.Path() == pkgPath {
+			e.ensureInit(p)
+		}
+	}
+}
